@@ -80,6 +80,18 @@ CLAIMED = {
             'file once in an order consistent with cross-file edges; PLAN calls only plan_* hooks. Sampling, not proof.',
             'InterfaceItem (documented as not a work item) is optional in the exactly-once check; targets entries of '
             'renamed imports are not judged; recurse_to_* manifests are not generated.'),
+    'C24': ('batchworld/plan', 'DESIGN.md sec. 5 (C24)',
+            'deterministic simulation: the real plan and convert CLIs are run in-process on identical copies of a '
+            'generated project under independently drawn environment orders (set order, topological tie-breaks), with '
+            'a storage recorder on Sourcefile.to_file; the plan lists are compared with the recorded writes',
+            'Seeded exploration of projects x configs (roles, replicate, lib, ignore/block/disable, expand) x pipelines '
+            '(Idem, ModuleWrap, Dependency, DuplicateKernel, RemoveKernel, FileWrite options, modes with dashes, build '
+            'dir inside/outside the tree, --root). Oracle: plan run writes no source; LOKI_SOURCES_TO_APPEND = set of '
+            'files the conversion wrote; TRANSFORM = originals they derive from; REMOVE = those originals that are not '
+            'replicated. Sampling, not proof.',
+            'Conversions that fail themselves are inconclusive. Several plan/convert mismatches for item-renaming and '
+            'item-duplicating pipelines exist on the unchanged tree and are listed in known_findings.jsonl by signature; '
+            'a different violation is still reported. A build following the plan is not compiled.'),
 }
 
 NA_COMMON = ('pure function of (source text / IR, options, valuations): no scheduler, clock, fault, shared state '
